@@ -247,6 +247,16 @@ def check_jar_path(W, rec, path, value):
         c.get("/set")
         c.get(quote(path, safe="/") + "/menu")
         c.get("/elsewhere")
+        # the path itself (RFC 6265 5.1.4: identical paths match) and a sibling that merely starts with the same characters
+        c.get(quote(path, safe="/"))
+        c.get(quote(path, safe="/") + "-sibling")
+        exact, sibling = seen.get(path), seen.get(path + "-sibling")
+        if exact is not None and exact.get("k") != value:
+            rec.violation("C13/client-jar-explicit-path-not-sent-back", f"cookie set with Path={path!r} was not sent on a request to exactly {path!r}: server saw {exact!r}", case, monitor="roundtrip")
+            return
+        if sibling is not None and "k" in sibling:
+            rec.violation("C13/client-jar-path-scope-ignored", f"cookie with Path={path!r} was sent to {path + '-sibling'!r}", case, monitor="roundtrip")
+            return
         under = seen.get(path + "/menu")
         if under is None:
             rec.note(f"jar path case: request path not seen as {path + '/menu'!r}: {sorted(seen)!r}")
